@@ -39,7 +39,7 @@ Abs(x)     == IF x < 0 THEN -x ELSE x                       \* x # MinInt
 PDiv(a, b) == IF a >= 0 THEN a \div b ELSE -((-a) \div b)   \* Pascal div (b > 0, a # MinInt)
 
 DevNames == {"MultiplyAcceptsMinInt", "ClampSignFromUnit", "GlueAdvanceMaxOrder",
-             "InternalDimenUnchecked"}
+             "InternalDimenUnchecked", "FilCarryUnchecked"}
 
 -----------------------------------------------------------------------------
 (* 102 round_decimals: digits .d1 d2 ... dk (k <= 17)  ->  scaled fraction *)
@@ -284,9 +284,13 @@ DimenUnits(t, p, R, F, inf, dev, cv, f, neg, e) ==
   IN IF fil.ok
      THEN \* 454
           LET ls == CountL(t, fil.p, 0)
-          IN AttachFraction(t, ls.p, cv, f, FALSE, neg,
-                            e + (IF ls.n > 2 THEN ls.n - 2 ELSE 0),     \* "Illegal unit ... filll"
-                            IF ls.n >= 2 THEN 3 ELSE 1 + ls.n)
+              ee == e + (IF ls.n > 2 THEN ls.n - 2 ELSE 0)              \* "Illegal unit ... filll"
+              oo == IF ls.n >= 2 THEN 3 ELSE 1 + ls.n
+          IN IF "FilCarryUnchecked" \in dev /\ cv < 16384 /\ cv * Unity + f >= 1073741824
+             THEN \* DEVIATION: 16383 + a fraction that rounds up to 2^16 gives 2^30, unchecked
+                  [v |-> IF neg THEN -(cv * Unity + f) ELSE cv * Unity + f, o |-> oo,
+                   p |-> OptSpace(t, ls.p), q |-> ls.p, e |-> ee, u |-> FALSE, radix |-> 0]
+             ELSE AttachFraction(t, ls.p, cv, f, FALSE, neg, ee, oo)
      ELSE \* 455
           LET q == SkipSpaces(t, fil.p)
               c == Tk(t, q)
